@@ -908,6 +908,11 @@ class Collocator:
             and flattened. If no common time period could be found, two None
             objects are returned.
         """
+        # A dataset without any point cannot collocate with anything (and has
+        # no time period either):
+        if not primary["time"].size or not secondary["time"].size:
+            return None, None
+
         if max_interval is not None \
                 or start > datetime.min or end < datetime.max:
             timer = Timer().start()
